@@ -134,6 +134,13 @@ func mustDeref(t types.Type) types.Type {
 	panic("mustDeref: " + t.String())
 }
 
+// initSkip: functions only used to build constant tables that the encoded code never
+// reads (trigonometric / logarithm tables of shopspring/decimal); skipped during init.
+var initSkip = map[string]bool{
+	"github.com/shopspring/decimal.NewFromFloat":            true,
+	"github.com/shopspring/decimal.newConstApproximation": true,
+}
+
 // ensureInit runs pkg's initializer once per path (lazily), in tolerant mode for
 // packages outside the repository.
 func (ex *Exec) ensureInit(pkg *ssa.Package) {
@@ -189,6 +196,9 @@ func (ex *Exec) poisonFor(t types.Type, why string) Value {
 
 func (ex *Exec) step() {
 	ex.steps++
+	if ex.profile != nil && len(ex.stack) > 0 {
+		ex.profile[ex.stack[len(ex.stack)-1]]++
+	}
 	if ex.steps > ex.budget {
 		panic(pathAbort{"budget", fmt.Sprintf("instruction budget %d exceeded", ex.budget)})
 	}
@@ -844,8 +854,11 @@ func (ex *Exec) call(caller *frame, fn Value, args []Value) Value {
 
 func (ex *Exec) callFn(caller *frame, fn *ssa.Function, args []Value, env []Value) Value {
 	if fn.Synthetic == "package initializer" && fn.Pkg != nil {
-		ex.ensureInit(fn.Pkg)
+		// lazy: a package is initialised when one of its globals is first touched
 		return nil
+	}
+	if ex.inInit && ex.tolerant && initSkip[fn.String()] {
+		return &Poison{"skipped in package initialisation: " + fn.String()}
 	}
 	if in := ex.prog.intrinsic(fn); in != nil {
 		ex.step()
